@@ -126,7 +126,7 @@ Proof.
 Qed.
 
 Section Framed.
-  Variable unm : bytes -> bool.
+  Variable unm : bytes -> option nat.
   Variable sink : bytes -> sres.
 
   Lemma loop_framed : forall ign (recs : list bytes) fuel (cs : reader) acc cnt fl,
@@ -147,13 +147,14 @@ Section Framed.
       destruct (read_full_app cs _ _ Hc) as [cs1 [R1 C1]].
       rewrite le32_length in R1. rewrite R1.
       rewrite de32_le32 by (unfold u32; apply N.mod_lt; discriminate).
-      unfold u32. rewrite N.mod_small by exact Hd. rewrite Nat2N.id.
+      unfold u32. rewrite N.mod_small by exact Hd.
+      rewrite N.min_l by (rewrite C1, app_length; lia). rewrite Nat2N.id.
       destruct (read_full_app cs1 _ _ C1) as [cs2 [R2 C2]].
       unfold body_full. rewrite R2. cbn [andb].
       cbn [ref_restore].
       destruct (unm d).
-      + destruct (sink d); try reflexivity; apply IH; auto; simpl in Hf; lia.
       + destruct ign; try reflexivity. apply IH; auto; simpl in Hf; lia.
+      + destruct (sink d); try reflexivity; apply IH; auto; simpl in Hf; lia.
   Qed.
 
   Theorem restore_framed : forall ign (recs : list bytes) (cs : reader),
@@ -182,10 +183,11 @@ Section Framed.
   Qed.
 
   (* ---- consequences of the reference semantics ---- *)
-  Definition good (o : bytes) : Prop := unm o = true /\ sink o = Stored.
+  Definition decodes (o : bytes) : bool := match unm o with None => true | Some _ => false end.
+  Definition good (o : bytes) : Prop := unm o = None /\ sink o = Stored.
   Definition is_stored (o : bytes) : bool :=
-    unm o && match sink o with Stored => true | _ => false end.
-  Definition not_failed (o : bytes) : Prop := unm o = true -> sink o <> Failed.
+    decodes o && match sink o with Stored => true | _ => false end.
+  Definition not_failed (o : bytes) : Prop := unm o = None -> forall c, sink o <> Failed c.
 
   Lemma ref_all_good : forall ign objs acc cnt fl,
     Forall good objs ->
@@ -194,42 +196,50 @@ Section Framed.
   Proof.
     intros ign. induction objs as [|o r IH]; intros acc cnt fl H.
     - simpl. now rewrite app_nil_r, Nat.add_0_r.
-    - inversion H as [|? ? [Hu Hk] Hr]; subst. simpl. rewrite Hu, Hk.
-      rewrite IH by auto. simpl. rewrite <- app_assoc. simpl.
-      f_equal. lia.
+    - inversion H as [|? ? [Hu Hk] Hr]; subst. cbn [ref_restore]. rewrite Hu, Hk.
+      rewrite IH by auto. f_equal; [cbn [rev]; rewrite <- app_assoc; reflexivity|simpl; lia].
   Qed.
 
   Lemma ref_skip : forall recs acc cnt fl,
     Forall not_failed recs ->
     ref_restore unm sink true recs acc cnt fl
     = mkRes (rev acc ++ filter is_stored recs)
-            (cnt + length (filter unm recs))
-            (fl + length (filter (fun o => negb (unm o)) recs)) ENone.
+            (cnt + length (filter decodes recs))
+            (fl + length (filter (fun o => negb (decodes o)) recs)) ENone.
   Proof.
     induction recs as [|o r IH]; intros acc cnt fl H.
     - simpl. now rewrite app_nil_r, !Nat.add_0_r.
-    - inversion H as [|? ? Hnf Hr]; subst. simpl. unfold is_stored at 1.
-      destruct (unm o) eqn:Hu; simpl.
-      + destruct (sink o) eqn:Hk.
-        * rewrite IH by auto. simpl. rewrite <- app_assoc. simpl. f_equal; lia.
-        * rewrite IH by auto. f_equal; lia.
-        * exfalso. now apply Hnf.
-      + rewrite IH by auto. f_equal; lia.
+    - inversion H as [|? ? Hnf Hr]; subst. cbn [ref_restore]. unfold not_failed in Hnf.
+      destruct (unm o) eqn:Hu.
+      + assert (D : decodes o = false) by (unfold decodes; now rewrite Hu).
+        assert (S0 : is_stored o = false) by (unfold is_stored; now rewrite D).
+        cbn [filter]. rewrite D, S0. cbn [negb]. rewrite IH by auto.
+        f_equal; simpl; lia.
+      + assert (D : decodes o = true) by (unfold decodes; now rewrite Hu).
+        cbn [filter]. rewrite D. cbn [negb]. unfold is_stored at 1. rewrite D. cbn [andb].
+        destruct (sink o) eqn:Hk.
+        * rewrite IH by auto.
+          f_equal; [cbn [rev]; rewrite <- app_assoc; reflexivity|simpl; lia].
+        * rewrite IH by auto. f_equal; simpl; lia.
+        * exfalso. now apply (Hnf eq_refl c).
   Qed.
 
-  Lemma ref_report : forall goods bad rest acc cnt fl,
-    Forall (fun o => unm o = true /\ sink o <> Failed) goods ->
-    unm bad = false ->
+  Lemma ref_report : forall goods bad c rest acc cnt fl,
+    Forall (fun o => unm o = None /\ forall c, sink o <> Failed c) goods ->
+    unm bad = Some c ->
     ref_restore unm sink false (goods ++ bad :: rest) acc cnt fl
-    = mkRes (rev acc ++ filter is_stored goods) (cnt + length goods) fl EOther.
+    = mkRes (rev acc ++ filter is_stored goods) (cnt + length goods) fl (EOther c).
   Proof.
-    induction goods as [|o r IH]; intros bad rest acc cnt fl H Hb.
+    induction goods as [|o r IH]; intros bad c rest acc cnt fl H Hb.
     - simpl. rewrite Hb. now rewrite app_nil_r, Nat.add_0_r.
-    - inversion H as [|? ? [Hu Hnf] Hr]; subst. simpl. unfold is_stored at 1. rewrite Hu.
-      destruct (sink o) eqn:Hk; simpl.
-      + rewrite IH by auto. f_equal; [cbn [rev]; rewrite <- app_assoc; reflexivity|lia].
-      + rewrite IH by auto. f_equal; lia.
-      + congruence.
+    - inversion H as [|? ? [Hu Hnf] Hr]; subst.
+      assert (D : decodes o = true) by (unfold decodes; now rewrite Hu).
+      cbn [app ref_restore filter]. unfold is_stored at 1. rewrite D, Hu.
+      cbn [andb].
+      destruct (sink o) eqn:Hk.
+      + rewrite (IH bad c) by auto. f_equal; [cbn [rev]; rewrite <- app_assoc; reflexivity|simpl; lia].
+      + rewrite (IH bad c) by auto. f_equal; simpl; lia.
+      + exfalso. now apply (Hnf c0).
   Qed.
 End Framed.
 
@@ -247,22 +257,22 @@ Theorem corrupt_skipped : forall unm sink (recs : list bytes) (cs : reader),
   Forall small recs -> Forall (not_failed unm sink) recs ->
   concat cs = dump recs ->
   restore unm sink true cs
-  = mkRes (filter (is_stored unm sink) recs) (length (filter unm recs))
-          (length (filter (fun o => negb (unm o)) recs)) ENone.
+  = mkRes (filter (is_stored unm sink) recs) (length (filter (decodes unm) recs))
+          (length (filter (fun o => negb (decodes unm o)) recs)) ENone.
 Proof.
   intros. rewrite (restore_framed unm sink true recs cs) by auto.
   rewrite ref_skip by auto. reflexivity.
 Qed.
 
-Theorem corrupt_reported : forall unm sink (goods : list bytes) bad rest (cs : reader),
+Theorem corrupt_reported : forall unm sink (goods : list bytes) bad c rest (cs : reader),
   Forall small (goods ++ bad :: rest) ->
-  Forall (fun o => unm o = true /\ sink o <> Failed) goods -> unm bad = false ->
+  Forall (fun o => unm o = None /\ forall c, sink o <> Failed c) goods -> unm bad = Some c ->
   concat cs = dump (goods ++ bad :: rest) ->
   restore unm sink false cs
-  = mkRes (filter (is_stored unm sink) goods) (length goods) 0 EOther.
+  = mkRes (filter (is_stored unm sink) goods) (length goods) 0 (EOther c).
 Proof.
   intros. rewrite (restore_framed unm sink false (goods ++ bad :: rest) cs) by assumption.
-  rewrite ref_report by auto. reflexivity.
+  rewrite (ref_report unm sink goods bad c) by auto. reflexivity.
 Qed.
 
 (* chunk sizes really produce a chunking of the stream *)
@@ -291,6 +301,6 @@ Proof.
   intros unm sink ign.
   exists [[1; 1]%N], [dump_magic ++ [2; 0; 0; 0; 1]%N; [1]%N].
   split; [repeat constructor|]. split; [reflexivity|].
-  intros _. unfold restore_old, restore_with. cbn.
-  destruct (unm [1; 0]%N); [destruct (sink [1; 0]%N)|destruct ign]; cbn; discriminate.
+  intros _. vm_compute.
+  destruct (unm [1; 0]%N); [destruct ign|destruct (sink [1; 0]%N)]; discriminate.
 Qed.
